@@ -334,6 +334,14 @@ def check_run_worker(ctx):
                 rets = [canon(s.value) for _, s in flow.returns if s.value is not None]
                 ok = rets == [lst]
                 why = "returns %s, results accumulate in %s" % (rets, lst)
+                # the list is filled by this loop only: a second place that adds to it (a retry / fall-back path) delivers batches twice
+                muts = [x for x in A.calls_in(fn) if isinstance(x.func, ast.Attribute) and x.func.attr in ("append", "extend", "insert") and canon(x.func.value) == lst]
+                muts += [x for x in A.walk_local(fn) if isinstance(x, ast.AugAssign) and canon(x.target) == lst]
+                if ok and len(muts) != 1:
+                    other = [x for x in muts if x is not p.body[0].value]
+                    ok = False
+                    why = "`%s` is also filled at line %d (`%s`) outside the pool.map loop: after a partial first pass the batches already delivered appear twice" % (
+                        lst, getattr(other[0], "lineno", 0), A.unparse(other[0])[:50]) if other else "result list is filled %d times" % len(muts)
             else:
                 why = "loop body over pool.map is not a plain append"
         elif isinstance(p, ast.Call) and A.call_name(p) == "list":
